@@ -693,8 +693,8 @@ bool tN2kMsg::GetVarStr(size_t &StrBufSize, char *StrBuf, unsigned char nulChar,
       StrBufSize=N2kUCS2ToUTF8(UnicodeStr,Len,StrBuf,StrBufSize,nulChar);
       Index+=Len;
     }
-  } else { // No room to copy anything
-    StrBufSize=0;
+  } else { // No buffer to copy to: report the size needed for the string (without terminator)
+    StrBufSize=( Type==0x01 ? Len : (Len/2)*3 ); // UCS-2 character needs at most 3 UTF-8 bytes
     Index+=Len; // Just pass this string
   }
   return true;
